@@ -62,6 +62,7 @@ func c17Host(i int, z string, sep string) string {
 }
 
 func c17Run(in c17In) c17Out {
+	vk.Running("offline", in)
 	var out c17Out
 	dir, _ := os.MkdirTemp("", "c17")
 	defer os.RemoveAll(dir)
